@@ -54,7 +54,7 @@ def sha(s):
 # ----------------------------------------------------------------------------- directives
 
 DIRECTIVE_RE = re.compile(r'/\*@(\s*extract\b.*?)@\*/', re.S)
-SECTION_RE = re.compile(r'^(requires|ensures|decreases|loop\s+\d+|before\s+`.*`|after\s+`.*`|opens_invariants.*|no_unwind.*)\s*$')
+SECTION_RE = re.compile(r'^(requires|ensures|decreases|loop\s+\d+|closure\s+\d+|before\s+`.*`|after\s+`.*`|opens_invariants.*|no_unwind.*)\s*$')
 
 
 class Directive:
@@ -75,6 +75,7 @@ class Directive:
         self.ensures = None
         self.decreases = None
         self.loops = {}           # k -> text
+        self.closures = {}        # k -> text (params / ret / requires / ensures lines)
         self.inserts = []         # (where, pattern, text)
         self.prefix = ''          # text inserted before the item (e.g. attributes)
         self.line = 0
@@ -105,6 +106,8 @@ def parse_directive(text, line):
             d.decreases = body
         elif cur.startswith('loop'):
             d.loops[int(cur.split()[1])] = body
+        elif cur.startswith('closure'):
+            d.closures[int(cur.split()[1])] = body
         elif cur.startswith('before') or cur.startswith('after'):
             where, pat = cur.split(None, 1)
             d.inserts.append((where, pat.strip().strip('`'), body))
@@ -151,7 +154,7 @@ def parse_directive(text, line):
                     a, b = _parse_rw(s[4:], line)
                     d.sig_rewrites.append(('sig', a, b))
                 elif s.startswith('rewrite'):
-                    mm = re.match(r'rewrite(\*?)\[(\w+)\]\s+(.*)$', s)
+                    mm = re.match(r'rewrite(\*?)\[([\w-]+)\]\s+(.*)$', s)
                     if not mm:
                         raise ValueError(f'bad rewrite at template line {line}: {s!r}')
                     a, b = _parse_rw(mm.group(3), line)
@@ -221,6 +224,41 @@ def drop_macro_statements(body, what, log):
         log.append({'rule': 'drop-' + ('log' if name in LOG_MACROS else 'debug_assert'), 'in': what,
                     'text': re.sub(r'\s+', ' ', body[s:e])[:160]})
     return out
+
+
+def rewrite_asserts(body, what, log):
+    """R7: runtime assertion / panic macros become calls whose precondition is the proof obligation
+    "this cannot fail":  assert!(c, ..) -> vassert(c);  assert_eq!(a, b, ..) -> vassert(a == b);
+    assert_ne!(a, b, ..) -> vassert(a != b);  panic!(..) / unreachable!(..) / unimplemented!() -> vpanic()."""
+    for _ in range(500):
+        toks = rustsrc.tokenize(body)
+        hit = None
+        for i, t in enumerate(toks[:-2]):
+            if t.kind == 'id' and t.text in ('assert', 'assert_eq', 'assert_ne', 'panic', 'unreachable', 'todo') \
+                    and toks[i + 1].text == '!' and toks[i + 2].text in ('(', '[', '{'):
+                hit = i
+                break
+        if hit is None:
+            return body
+        i = hit
+        j = rustsrc.match_close(toks, i + 2)
+        name = toks[i].text
+        args = _top_level_split(toks, i + 3, j, ',')
+        def txt(rng):
+            a, b = rng
+            return body[toks[a].start:toks[b - 1].end] if b > a else ''
+        if name == 'assert':
+            new = 'vassert(' + txt(args[0]) + ')'
+        elif name == 'assert_eq':
+            new = 'vassert((' + txt(args[0]) + ') == (' + txt(args[1]) + '))'
+        elif name == 'assert_ne':
+            new = 'vassert((' + txt(args[0]) + ') != (' + txt(args[1]) + '))'
+        else:
+            new = 'vpanic()'
+        log.append({'rule': 'R7-assert-as-obligation', 'in': what,
+                    'text': re.sub(r'\s+', ' ', body[toks[i].start:toks[j].end])[:160], 'to': new[:160]})
+        body = body[:toks[i].start] + new + body[toks[j].end:]
+    raise LostAnchor(f'{what}: assert rewriting did not terminate')
 
 
 def _top_level_split(toks, lo, hi, sep):
@@ -373,6 +411,8 @@ def publicize(text, kind):
                         depth += 1
                     elif tt.kind == 'punct' and tt.text == '>':
                         depth -= 1
+                    elif tt.kind == 'punct' and tt.text == '>>':
+                        depth -= 2
                     elif tt.kind == 'punct' and tt.text == ',' and depth == 0:
                         expect = True
                         j += 1
@@ -475,6 +515,80 @@ def find_loops(body):
     return loops
 
 
+def find_closures(body):
+    """Return list of (start, params_start, params_end, body_start, body_end, is_block) byte offsets for each
+    closure literal in token order."""
+    toks = rustsrc.tokenize(body)
+    res = []
+    starters = {'(', ',', '=', '{', ';', '=>', 'return', 'move', '[', ':'}
+    for i, t in enumerate(toks):
+        if t.kind != 'punct' or t.text not in ('|', '||'):
+            continue
+        prev = toks[i - 1].text if i > 0 else '{'
+        if prev not in starters:
+            continue
+        if t.text == '||':
+            pe = i
+            p_start = p_end = t.start + 1
+        else:
+            j = i + 1
+            while j < len(toks) and toks[j].text != '|':
+                if toks[j].kind == 'punct' and toks[j].text in rustsrc.OPEN:
+                    j = rustsrc.match_close(toks, j)
+                j += 1
+            pe = j
+            p_start, p_end = t.end, toks[j].start
+        k = pe + 1
+        if k >= len(toks):
+            continue
+        if toks[k].text == '{':
+            e = rustsrc.match_close(toks, k)
+            res.append((t.start, p_start, p_end, toks[k].start, toks[e].end, True))
+        else:
+            # expression body: until ',' or closing bracket at depth 0
+            m = k
+            while m < len(toks):
+                tt = toks[m]
+                if tt.kind == 'punct' and tt.text in rustsrc.OPEN:
+                    m = rustsrc.match_close(toks, m)
+                elif tt.kind == 'punct' and (tt.text in rustsrc.CLOSE or tt.text in (',', ';')):
+                    break
+                m += 1
+            res.append((t.start, p_start, p_end, toks[k].start, toks[m - 1].end, False))
+    return res
+
+
+def annotate_closures(body, specs, what, log):
+    cl = find_closures(body)
+    edits = []
+    for k, txt in specs.items():
+        if k >= len(cl):
+            raise LostAnchor(f'{what}: closure {k} not found (body has {len(cl)} closures)')
+        start, ps, pe, bs, be, is_block = cl[k]
+        params = ret = None
+        clauses = []
+        for ln in txt.split('\n'):
+            st = ln.strip()
+            if st.startswith('params '):
+                params = st[7:]
+            elif st.startswith('ret '):
+                ret = st[4:]
+            elif st:
+                clauses.append(ln)
+        inner = body[bs:be]
+        new = '|' + (params if params is not None else body[ps:pe]) + '|'
+        if ret:
+            new += ' -> (' + ret + ')'
+        new += '\n' + '\n'.join(clauses) + '\n'
+        new += inner if is_block else '{ ' + inner + ' }'
+        edits.append((start, be, new))
+        log.append({'rule': 'closure-annotation', 'in': what, 'closure': k,
+                    'text': 'type/ensures annotation added; closure body kept verbatim'})
+    for a, b, new in sorted(edits, key=lambda x: -x[0]):
+        body = body[:a] + new + body[b:]
+    return body
+
+
 # ----------------------------------------------------------------------------- assembly
 
 class Extracted:
@@ -555,12 +669,15 @@ def render_item(repo_root, d, log, cache):
     # ---- body drops and rewrites
     body = drop_macro_statements(body, what, log)
     body = rewrite_let_chains(body, what, log)
+    body = rewrite_asserts(body, what, log)
     if d.elide_async:
         sig = elide_async(sig, what, log)
         body = elide_async(body, what, log)
     for (tag, allo, a, b) in d.rewrites:
         body = apply_rewrite(body, a, b, allo, what, log, tag)
     ex.body_sha = sha(body)
+    if d.closures:
+        body = annotate_closures(body, d.closures, what, log)
     # ---- loops (compute on the rewritten body, splice back to front)
     splices = []   # (offset, text)
     if d.loops:
